@@ -109,6 +109,11 @@ def check_one(ctx, res, seed, stats, samples):
     for i in named:
         by_out.setdefault(os.path.normpath(res["q"][i]["output_path"]), i)
 
+    owners_of = {}
+    for i, t in enumerate(qs):
+        if t[0] == "named" and res["q"][i]["output_path"] not in ("-", ""):
+            owners_of.setdefault(os.path.normpath(res["q"][i]["output_path"]), set()).add(t[1])
+
     def deps_paths(i):
         return [os.path.normpath(x.split("@", 1)[1]) for x in res["q"][i]["deps"].split("|") if "@" in x]
 
@@ -132,7 +137,8 @@ def check_one(ctx, res, seed, stats, samples):
             probs = []
             if text is None:
                 probs = ["the export did not write %s, the file of a type reachable from the root" % pth]
-            else:
+            elif len(owners_of.get(pth, ())) <= 1:
+                # a file shared by several types may also hold file-mates written alone by export(): their imports are their own business
                 probs = [x for x in tsmini.closed_module(os.path.join(mixed_dir, pth), text, known, read_mixed)]
             if probs:
                 data = dict(kind="property-violated", what="history", history=dict(export_alone=[C.rust_ty(qs[i]) for i in alone], then_export_all=C.rust_ty(qs[r])),
